@@ -44,7 +44,7 @@ func coqNameRule(e *ErrEntry) string {
 }
 
 // coqTenv lists the generated error types of the service with their GoaErrorName rule.
-func coqTenv(eps map[string]*EpExtract, svc string) string {
+func coqTenv(eps map[string]*EpExtract, svc string, ci *caseInfo) string {
 	seen := map[string]bool{}
 	var keys, items []string
 	for k := range eps {
@@ -63,7 +63,39 @@ func coqTenv(eps map[string]*EpExtract, svc string) string {
 			}
 		}
 	}
+	// the Go type of a scripted custom error that no row of the service mentions (an upper
+	// level's mapping carries another type): its rule comes from the design description
+	if ty, rule, ok := scriptedType(ci); ok && !seen[ty] {
+		items = append(items, "("+cs(ty)+", "+rule+")")
+	}
 	return vh.CoqList(items)
+}
+
+// scriptedType: design-level Go type name and GoaErrorName rule of a scripted custom error.
+func scriptedType(ci *caseInfo) (string, string, bool) {
+	if ci == nil || ci.Err == nil || ci.Err.Kind != "custom" {
+		return "", "", false
+	}
+	for _, s := range ci.Design.Services {
+		if s.Name != ci.Service {
+			continue
+		}
+		for _, m := range s.Methods {
+			for _, e := range append(append([]dg.ErrorDef{}, m.Errors...), s.Errors...) {
+				if e.Name == ci.ErrName && e.T != nil {
+					ty := e.Name
+					if e.T.Kind == "user" {
+						ty = e.T.Ref
+					}
+					if na := nameAttrOf(ci.Design, e.T); na != "" {
+						return ty, "(NField " + cs(na) + ")", true
+					}
+					return ty, "(NStatic " + cs(e.Name) + ")", true
+				}
+			}
+		}
+	}
+	return "", "", false
 }
 
 func coqDecl(e *ErrEntry) string {
@@ -128,13 +160,27 @@ func coqErr(ci *caseInfo, eps map[string]*EpExtract) string {
 	case "plain":
 		return "(EPlain " + cs(sp.Message) + ")"
 	case "custom":
-		en := entryFor(eps, ci.Service, ci.ErrName)
-		if en == nil {
+		ty, _, ok := scriptedType(ci)
+		if en := entryFor(eps, ci.Service, ci.ErrName); en != nil && (!ok || en.Custom) {
+			ty = en.TypeName
+		} else if !ok {
 			return ""
 		}
-		return fmt.Sprintf("(ECustom %s %s)", cs(en.TypeName), coqFields(fieldsOfVal(ci.Sent)))
-	case "wrapped":
-		return "(EWrap \"wrapped\" (EService " + coqCore(sp.Name, sp.ID, sp.Message, sp.Timeout, sp.Temporary, sp.Fault) + "))"
+		return fmt.Sprintf("(ECustom %s %s)", cs(ty), coqFields(fieldsOfVal(ci.Sent)))
+	case "wrapped", "wrapped2", "joined", "multiw", "joined-wrapped":
+		se := "(EService " + coqCore(sp.Name, sp.ID, sp.Message, sp.Timeout, sp.Temporary, sp.Fault) + ")"
+		switch sp.Kind { // the trees tierb/rt builds around the scripted ServiceError
+		case "wrapped":
+			return "(EWrap \"wrapped\" " + se + ")"
+		case "wrapped2":
+			return "(EWrap \"outer\" (EWrap \"inner\" " + se + "))"
+		case "joined":
+			return "(EJoin " + cs("\n") + " [EPlain \"unrelated\"; " + se + "])"
+		case "multiw":
+			return "(EJoin \": \" [EPlain \"context\"; " + se + "])"
+		default:
+			return "(EWrap \"while doing x\" (EJoin " + cs("\n") + " [" + se + "; EPlain \"unrelated\"]))"
+		}
 	default:
 		return "(EService " + coqCore(sp.Name, sp.ID, sp.Message, sp.Timeout, sp.Temporary, sp.Fault) + ")"
 	}
@@ -167,7 +213,7 @@ func coqCase(idx int, ci *caseInfo, ex *EpExtract, ob *rt.Obs, eps map[string]*E
 	if ob == nil || ob.Panic != "" {
 		return ""
 	}
-	te := coqTenv(eps, ci.Service)
+	te := coqTenv(eps, ci.Service, ci)
 	if strings.HasPrefix(ci.Class, "decode:") {
 		kind := strings.TrimPrefix(ci.Class, "decode:")
 		var steps string
@@ -260,4 +306,60 @@ func coqCase(idx int, ci *caseInfo, ex *EpExtract, ob *rt.Obs, eps map[string]*E
 		}
 	}
 	return fmt.Sprintf("(%d%%N, %s, %s, %s, mkobs %d %s %s %s %d %s)", idx, te, coqTable(ex), e, ob.Resp.Status, goa, coqFields(bf), coqFields(obsHeaders(ex, ob.Resp)), ob.WriteHeaders, client)
+}
+
+func coqKindOfDef(e dg.ErrorDef) string {
+	if e.T == nil {
+		return "KDefault"
+	}
+	if e.T.Kind == "user" {
+		return "(KCustom " + cs(e.T.Ref) + ")"
+	}
+	return "(KCustom " + cs(e.Name) + ")" // inline and primitive error types are named after the error
+}
+
+func coqDecls(es []dg.ErrorDef) string {
+	items := make([]string, len(es))
+	for i, e := range es {
+		items[i] = "(" + cs(e.Name) + ", " + coqKindOfDef(e) + ")"
+	}
+	return vh.CoqList(items)
+}
+
+func coqMaps(rs []dg.ErrResponse) string {
+	items := make([]string, len(rs))
+	for i, r := range rs {
+		items[i] = fmt.Sprintf("(%s, %d)", cs(r.Name), r.R.Status)
+	}
+	return vh.CoqList(items)
+}
+
+// coqTables prints, per endpoint, the declarations and mappings of the three levels as
+// the design description states them, and the table goa computed.
+func coqTables(first int, it *built) []string {
+	var out []string
+	d := it.bu.Design
+	for _, s := range d.Services {
+		for _, m := range s.Methods {
+			ex := it.eps[s.Name+"/"+m.Name]
+			if ex == nil {
+				continue
+			}
+			var mm []dg.ErrResponse
+			if m.HTTP != nil {
+				mm = m.HTTP.Errors
+			}
+			rows := make([]string, len(ex.Errors))
+			for i, e := range ex.Errors {
+				k := "KDefault"
+				if e.Custom {
+					k = "(KCustom " + cs(e.TypeName) + ")"
+				}
+				rows[i] = fmt.Sprintf("(%s, %d, %s)", cs(e.Name), e.Status, k)
+			}
+			out = append(out, fmt.Sprintf("(%d%%N, mklevels %s %s %s %s %s %s, %s)", first+len(out),
+				coqDecls(m.Errors), coqMaps(mm), coqDecls(s.Errors), coqMaps(s.HTTPErrs), coqDecls(d.Errors), coqMaps(d.HTTPErrs), vh.CoqList(rows)))
+		}
+	}
+	return out
 }
